@@ -40,7 +40,8 @@ def same_state(a, b):
       if a[k] != b[k]:
         return 'n_features_in_ differs (%r vs %r)' % (a[k], b[k])
     elif not np.array_equal(np.asarray(a[k]), np.asarray(b[k]), equal_nan=True):
-      return k + ' differs'
+      x, y = np.asarray(a[k], dtype=float), np.asarray(b[k], dtype=float)
+      return k + ' differs' + (' (max abs difference %.3g, largest entry %.3g)' % (np.abs(x - y).max(), np.abs(y).max()) if x.shape == y.shape else ' (shapes %s, %s)' % (x.shape, y.shape))
   return None
 
 
@@ -83,6 +84,11 @@ def run_history(ctx, name, rng, nsets, length):
     kw.update(array_params(name, data, rng))
     if name == 'LFDA' and rng.random() < 0.6:
       kw['k'] = int(data['d'] + rng.integers(0, 4))      # legal: a k beyond n_features - 1 is clipped for THIS fit (with a warning)
+    if name in ('LFDA', 'RCA'):
+      # the dimension-reducing branches (iterative / generalised eigen-solvers) in about half of the data sets; the key is always
+      # present, so that set_params before each fit also resets it
+      kw['n_components'] = int(rng.integers(1, data['d'])) if (data['d'] >= 2 and rng.random() < 0.6) else None
+      ctx.hist('n_components_below_d', '%s: %s' % (name, kw['n_components'] is not None))
     kws.append(fits.sdml_fix_balance(name, kw, data))
   # hyper-parameters that depend on the data (n_basis, balance_param ...) are set by set_params before each fit
   est = fits.make_estimator(name, kws[0])
